@@ -16,12 +16,19 @@ inductive SigStatus where
   | noPubKey   -- claimed key does not belong to the signer address
   deriving Repr, DecidableEq
 
+/-- stage of the two-phase commit of a task result (x/avs/types: TwoPhaseCommitOne / TwoPhaseCommitTwo; anything else is refused) -/
+inductive Phase where
+  | one | two | other
+  deriving Repr, DecidableEq
+
 /-- everything a decision could read -/
 structure Request where
   callerAddress : Addr        -- contract.CallerAddress (EVM) / — (cosmos)
   origin : Addr               -- evm.Origin = signer of the eth tx; for cosmos txs the signer address
   arg0 : Addr                 -- the address passed as first ABI argument / the msg's from-field
   sig : SigStatus
+  subject : Addr := 0         -- the address *inside* the payload on whose record the request acts (TaskResultInfo.OperatorAddress)
+  phase : Phase := .one       -- TaskResultInfo.Stage
   deriving Repr, DecidableEq
 
 /-- the part of the state authorization reads -/
@@ -38,7 +45,9 @@ inductive Entry where
   | gatewayMethod      -- assets/delegation/reward precompile transactions
   | registerAVS | updateAVS | deregisterAVS | createTask
   | avsOptIn | avsOptOut | registerBLSKey
-  | sdkMsg             -- operator / delegation / avs messages (standard SDK signature verification)
+  | sdkMsg             -- operator / delegation messages (standard SDK signature verification)
+  | taskResult         -- MsgSubmitTaskResult, both phases
+  | challenge          -- AVS precompile: challenge
   | oraclePrice        -- MsgCreatePrice (custom ante branch)
   | updateParams       -- UpdateParams of oracle, dogfood, exomint, feedistribution, assets
   deriving Repr, DecidableEq
@@ -68,6 +77,23 @@ def admitRegisterBLS (_ : AuthState) (_ : Request) (blsProofValid : Bool) (alrea
 /-- standard SDK path: SetPubKeyDecorator (pubkey address = signer) + SigVerificationDecorator -/
 def admitSdkMsg (r : Request) : Bool := r.sig == .valid && r.arg0 == r.origin
 
+/-- x/avs/keeper/msg_server.go: SubmitTaskResult → x/avs/keeper/task.go: SetTaskResultInfo(ctx, req.FromAddress, req.Info):
+standard SDK signature check for FromAddress (`arg0`), then — as the FIRST statement, before the operator /
+BLS-key / task look-ups and before the `switch info.Stage` — `addr != info.OperatorAddress` rejects; the
+remaining admissibility of the payload in its phase (window, signature replay, BLS proof …) is `payloadOk` -/
+def admitTaskResult (st : AuthState) (r : Request) (payloadOk : Bool) : Bool :=
+  r.sig == .valid && r.arg0 == r.origin &&
+  r.arg0 == r.subject &&                       -- the signer comparison, outside the switch
+  st.isOperator r.subject &&
+  (match r.phase with
+   | .one => payloadOk
+   | .two => payloadOk
+   | .other => false)
+
+/-- precompiles/avs/tx.go: Challenge → x/avs/keeper: RaiseAndResolveChallenge: the task contract is
+contract.CallerAddress; args[0] is only *recorded* as the challenger — no owner list is consulted -/
+def admitChallenge (_ : AuthState) (_ : Request) (payloadOk : Bool) : Bool := payloadOk
+
 /-- app/ante/cosmos/sigverify.go, oracle branch (after commit 8ec350f): SetPubKeyDecorator compares
 pk.Address() with the signer; SigVerificationDecorator computes the sign bytes and returns
 ErrUnauthorized unless VerifySignature succeeds; IncrementSequenceDecorator → CheckAndIncreaseNonce
@@ -87,5 +113,7 @@ def actsFor (e : Entry) (r : Request) : Addr :=
   | .registerAVS | .updateAVS | .deregisterAVS | .createTask => r.callerAddress   -- the AVS
   | .avsOptIn | .avsOptOut | .registerBLSKey => r.arg0                            -- the operator
   | .sdkMsg | .oraclePrice | .updateParams => r.arg0
+  | .taskResult => r.subject                                                      -- the operator whose result is stored
+  | .challenge => r.callerAddress
 
 end ExoVerif.Auth
